@@ -54,6 +54,8 @@ func run(line string) core.Outcome {
 		return runFlt(f)
 	case "site":
 		return runSite(f)
+	case "fenc":
+		return runFenc(f)
 	}
 	return core.Outcome{Impl: "bad-op"}
 }
@@ -545,12 +547,12 @@ func malformed(r *core.Rand, good string) string {
 }
 
 func (prop) Generate(rng *core.Rand, tier string, emit func(string)) {
-	nh, nr, nf, ns := 6000, 1500, 9000, 2500
+	nh, nr, nf, ns, ne := 6000, 1500, 9000, 2500, 4000
 	switch tier {
 	case "thorough":
-		nh, nr, nf, ns = 120000, 30000, 200000, 60000
+		nh, nr, nf, ns, ne = 120000, 30000, 200000, 60000, 80000
 	case "search":
-		nh, nr, nf, ns = 15000, 3000, 20000, 8000
+		nh, nr, nf, ns, ne = 15000, 3000, 20000, 8000, 10000
 	}
 	rh, rr, rf, rs, rm := rng.Fork(), rng.Fork(), rng.Fork(), rng.Fork(), rng.Fork()
 	for i := 0; i < nh; i++ {
@@ -561,6 +563,10 @@ func (prop) Generate(rng *core.Rand, tier string, emit func(string)) {
 	}
 	for i := 0; i < nf; i++ {
 		emit(genFltCase(rf))
+	}
+	re := rng.Fork()
+	for i := 0; i < ne; i++ {
+		emit(genFencCase(re))
 	}
 	for i := 0; i < ns; i++ {
 		if l, ok := genSiteCase(rs); ok {
